@@ -399,10 +399,10 @@ class Recorder:
         self.S.disvg = self.o_disvg
 
 
-def guarded(fn):
+def guarded(fn, limit=None):
     """run fn() under the wall-clock guard; returns (value, exception, seconds)"""
     old = signal.signal(signal.SIGALRM, _alarm)
-    signal.setitimer(signal.ITIMER_REAL, TIME_LIMIT)
+    signal.setitimer(signal.ITIMER_REAL, limit or TIME_LIMIT)
     t0 = time.time()
     try:
         return fn(), None, time.time() - t0
@@ -702,6 +702,13 @@ def run_path_case(segs, closed, mj, tight, noscipy=False):
         with Recorder() as rec, warnings.catch_warnings():
             warnings.simplefilter('ignore')
             out, exc, dt = guarded(lambda: smoothed_path(path, maxjointsize=mj, tightness=tight))
+        if isinstance(exc, Timeout):
+            # a wall-clock limit on a shared machine is not evidence: the same call once more, on a
+            # fresh copy, with a 6x limit (a seed-1 run hit the 20 s guard on a call that takes 12 ms)
+            path = Path(*[copy_seg(s) for s in segs])
+            with Recorder() as rec, warnings.catch_warnings():
+                warnings.simplefilter('ignore')
+                out, exc, dt = guarded(lambda: smoothed_path(path, maxjointsize=mj, tightness=tight), 6 * TIME_LIMIT)
     finally:
         P._quad_available = old
     return {'out': out, 'exc': exc, 'dt': dt, 'lens': rec.lens, 'ils': rec.ils, 'uts': rec.uts}
@@ -907,6 +914,11 @@ def run(rep, tier, seed, replay=None):
             with Recorder() as rec, warnings.catch_warnings():
                 warnings.simplefilter('ignore')
                 res, exc, dt = guarded(lambda: smoothed_joint(s0, s1, maxjointsize=mj, tightness=tight))
+            if isinstance(exc, Timeout):
+                s0, s1 = copy_seg(segs[0]), copy_seg(segs[1])
+                with Recorder() as rec, warnings.catch_warnings():
+                    warnings.simplefilter('ignore')
+                    res, exc, dt = guarded(lambda: smoothed_joint(s0, s1, maxjointsize=mj, tightness=tight), 6 * TIME_LIMIT)
             evals += 1
             if exc is not None:
                 key = 'timeout' if isinstance(exc, Timeout) else (
